@@ -28,3 +28,21 @@ func VerifFormatValue(val interface{}) string {
 // VerifSplitIntoSentences exposes splitIntoSentences to the verification harness
 // (the sentence splitter is a parameter of the C12 model of the layout-based chunker).
 func VerifSplitIntoSentences(text string) []string { return splitIntoSentences(text) }
+
+// VerifUpdateSectionPath exposes updateSectionPath (the heading-stack step for a caller
+// that knows only the level of the innermost open heading): it returns the new section
+// path and the new current level. The caller's slice is not modified.
+func VerifUpdateSectionPath(sectionPath []string, currentLevel, newLevel int, headingText string) ([]string, int) {
+	path := append([]string{}, sectionPath...)
+	level := currentLevel
+	updateSectionPath(&path, &level, newLevel, headingText)
+	return path, level
+}
+
+// VerifChunkerSettings exposes what Chunker.Chunk reads of a Chunker's configuration:
+// MaxChunkSize, MinChunkSize, MinHeadingLevel, IDPrefix and the boundary detector's
+// KeepListsIntact (derived from PreserveListCoherence by the constructors).
+func VerifChunkerSettings(c *Chunker) (maxSize, minSize, minHeadingLevel int, keepLists bool, idPrefix string) {
+	return c.config.MaxChunkSize, c.config.MinChunkSize, c.config.MinHeadingLevel,
+		c.boundaryDetector.config.KeepListsIntact, c.config.IDPrefix
+}
